@@ -4,6 +4,7 @@ import (
 	"fmt"
 	"go/token"
 	"go/types"
+	"math"
 
 	"golang.org/x/tools/go/ssa"
 )
@@ -264,6 +265,18 @@ func (in *Interp) convert(v Value, from, to types.Type) Value {
 					return x
 				}
 				w, signed, _ := intWidth(to)
+				if x.Op == OFPConst {
+					// concrete float to integer: Go's conversion truncates towards zero
+					// (values out of range are implementation-defined; such constants do
+					// not occur in the code under test)
+					f := math.Trunc(math.Float64frombits(x.V))
+					if signed && f >= -9.2e18 && f <= 9.2e18 {
+						return tb.Const(w, uint64(int64(f)))
+					}
+					if !signed && f >= 0 && f <= 1.8e19 {
+						return tb.Const(w, uint64(f))
+					}
+				}
 				if signed {
 					return tb.Raw(fmt.Sprintf("(_ fp.to_sbv %d) RTZ", w), BV(w), x)
 				}
